@@ -226,9 +226,7 @@ def stepLine (d : DState) (op obs : String) : DState × String :=
         let d' := { d with ws := st1, out := d.out ++ hb }
         (d', s!"h={hs.str} w=0:ok f=- len={if d.bpb = 0 then (if d.filter == "none" then toString d'.out.length else obsField obs "len") else "-"}")
       else
-        let r := chunks.foldl (fun (acc : Nat × List Nat × WState) c =>
-          let (b, s') := writeData acc.2.2 c
-          (acc.1 + b.length, acc.2.1 ++ b, s')) (0, [], st1)
+        let r := chunks.foldl dataStep (0, [], st1)
         let (fb, st3) := if nofinish then ([], r.2.2) else finishEntry r.2.2
         let d' := { d with ws := st3, out := d.out ++ hb ++ r.2.1 ++ fb }
         (d', s!"h={hs.str} w={r.1}:ok f={if nofinish then "-" else "ok"} len={if d.bpb = 0 then (if d.filter == "none" then toString d'.out.length else obsField obs "len") else "-"}")
